@@ -4,7 +4,8 @@ CFG = {
     "lean_files": ["GeoModel/Distance.lean", "GeoModel/Ops/C07.lean", "GeoModel/Segment.lean", "GeoModel/Locate.lean",
                    "GeoModel/RelateSpec.lean", "GeoModel/Valid.lean", "GeoModel/F64.lean",
                    "GeoProofs/Lemmas/C07PSquare.lean", "GeoProofs/Lemmas/C07PSegSeg.lean", "GeoProofs/Lemmas/C07PMin.lean",
-                   "GeoProofs/Lemmas/C07PBase.lean", "GeoProofs/Lemmas/C07PParts.lean"],
+                   "GeoProofs/Lemmas/C07PBase.lean", "GeoProofs/Lemmas/C07PParts.lean",
+                   "GeoProofs/Lemmas/C07PRings.lean"],
     "rule": "ordered pairs (A, B) cycling through all 100 ordered pairs of the 10 geometry types (Geometry enum on both sides and the "
             "concrete-type impls), on a shared 3..6 grid with half-grid points: B inside a hole of A (one or two holes, hole touching B or not), "
             "B nested in a polygon without holes, both on the same grid (crossing / touching / overlapping), B shifted by a small vector "
@@ -43,7 +44,10 @@ MANIFEST = {
             "attained), and so does every pair of operands of dimension <= 1; the dispatch recursion visits exactly the pairs (part of a, part of b) "
             "up to operand order (calls_are_part_pairs), so distance(a, b) of two geometries made of Points, Lines and LineStrings (Multi*, nested "
             "collections) is the true minimum over all pairs of points of a and b (distG_is_true_min; with Point x LineString pairs _partial, "
-            "where the tolerance test has no false positive, K4); LineString x LineString is symmetric (its nested bounding-box rejections are sound); nearest_neighbour_distance is the "
+            "where the tolerance test has no false positive, K4); for the areal kernels, once intersects has not fired, the value is the true "
+            "minimum over all pairs of points to the rings the branch measures (Line x Polygon: all rings; LineString x Polygon and Polygon x "
+            "Polygon: the exterior ring(s) in the exterior branch, the hole rings in the containment branch - the latter _partial under the "
+            "bounding-box condition the containment test implies); LineString x LineString is symmetric (its nested bounding-box rejections are sound); nearest_neighbour_distance is the "
             "minimum over all vertex-segment pairs in both directions; all kernels are non-negative and panic-free on non-empty operands; the "
             "dispatch recursion is fuel-independent and equals the min folds of the macros, which lifts zero/minimum through Multi*/collections; "
             "Rect/Triangle/singleton Multi*/collection-of-one wrappers reduce to the wrapped operand. Polygon x Polygon symmetry is proved "
